@@ -39,6 +39,7 @@ PROPS["C13"] = {
                 "FuzzC13History": FUZZ(90, configs=["default"]),
                 "TestC13Twin": T(12000, 150000),
                 "TestC13Injective": T(60000, 600000),
+                "TestC13NilEntropy": LIST(),
             },
         },
         {
